@@ -29,7 +29,20 @@ def sig_evidence_offset(f):
     return _dev_close(f.get("deviation"), 0.5 * p["Nsum"] * (p["Dy"] - p["Dx"]) * LOG2PI)
 
 
+def sig_hetero_woodbury(f):
+    """finding (g): heteroscedastic condition_on_x / bounds when A has more columns than rows"""
+    p = f.get("params", {})
+    return "hetero-woodbury-Da>Dy" in f.get("site", "") and p.get("Da", 0) > p.get("Dy", 0)
+
+
+def sig_hetero_batched_px(f):
+    p = f.get("params", {})
+    return "hetero-batched-px" in f.get("site", "") and p.get("R", 1) > 1
+
+
 SIGNATURES = {
+    "hetero-woodbury-Da>Dy": (("hetero-woodbury-Da>Dy",), sig_hetero_woodbury),
+    "hetero-batched-px": (("hetero-batched-px",), sig_hetero_batched_px),
     "set_y-normaliser-uses-Dx": (("set_y",), sig_set_y_normaliser),
     "evidence-offset-from-set_y": (("set_y", "evidence"), sig_evidence_offset),
 }
